@@ -16,8 +16,8 @@ CASES = [
          old="         if (mTreatDuplicatesAsErrors)\n            throw std::runtime_error( \"refuse to store duplicate values in\"\n               \" variable '\" + mVarName + \"'\");\n         continue; // for\n      } // end if\n\n      auto const  dest_value =\n         boost::lexical_cast< typename dest_type_t::value_type_t>(",
          new="         if (mTreatDuplicatesAsErrors)\n            throw std::runtime_error( \"refuse to store duplicate values in\"\n               \" variable '\" + mVarName + \"'\");\n      } // end if\n\n      auto const  dest_value =\n         boost::lexical_cast< typename dest_type_t::value_type_t>("),
     dict(id='c06-fixed-separator', prop='C06', file=T, expect='R1', where='bitset',
-         old="   common::Tokenizer  tok( value, mListSep);\n   for (auto it = tok.begin(); it != tok.end(); ++it)\n   {\n      if (mpCardinality && (it != tok.begin()))\n         mpCardinality->gotValue();\n\n      auto const&  list_val( *it);",
-         new="   common::Tokenizer  tok( value, ',');\n   for (auto it = tok.begin(); it != tok.end(); ++it)\n   {\n      if (mpCardinality && (it != tok.begin()))\n         mpCardinality->gotValue();\n\n      auto const&  list_val( *it);"),
+         old="   common::Tokenizer  tok( value, mListSep);\n   for (auto it = tok.begin(); it != tok.end(); ++it)\n   {\n      if (mpCardinality && !mIgnoreCardinality && (it != tok.begin()))\n         mpCardinality->gotValue();\n\n      auto const&  list_val( *it);",
+         new="   common::Tokenizer  tok( value, ',');\n   for (auto it = tok.begin(); it != tok.end(); ++it)\n   {\n      if (mpCardinality && !mIgnoreCardinality && (it != tok.begin()))\n         mpCardinality->gotValue();\n\n      auto const&  list_val( *it);"),
     dict(id='c06-deque-sort-throws', prop='C06', file=C, expect='R2', where='deque',
          old="      std::sort( mDestCont.begin(), mDestCont.end());\n   } // ContainerAdapter< std::deque< T>>::sort",
          new="      throw std::logic_error( \"sort() not supported\");\n   } // ContainerAdapter< std::deque< T>>::sort"),
